@@ -95,8 +95,8 @@ def case_prog(case, K=2, W=32):
     def sig(f, v):
         d = v.get("detail") or {}
         cul = "+".join(d.get("culprit_patterns", [])) if isinstance(d, dict) else "?"
-        where = (f.get("info") or {}).get("where", "")
-        return f"{f['name']}|site={cul or 'none-single'}" + (f"|{where}" if where else "") + ("|after_dedup" if dedup_first else "")
+        rel = (f.get("info") or {}).get("reliance", "")
+        return f"{f['name']}|site={cul or 'none-single'}" + (f"|{rel}" if rel else "") + ("|after_dedup" if dedup_first else "")
 
     return run_case(fn, replay, signature=sig, sample=dict(program=str(prog), dedup_first=dedup_first), key=str(case),
                     max_paths=400)
